@@ -144,6 +144,15 @@ def check_c03(pid, tier, seed, replay):
     obs = M.run_obs(ck, cpath, "c03_T", levels="", clevels="0,1,2", bound=2200, timeout_ms=1500)
     M.validate_traces(ck, obs, 14, classify_c03, "T")
     progs += len(tc)
+    # label / conditional jump / return-jump stress (several return jumps after one label jump, returns
+    # with nothing pending, jumps to a label from its own command ...), levels 0 and 2
+    rj = [{"prog": M.retjump_soup(rng, rng.randint(6, 14)), "input": []} for _ in range(150 if quick else 3000)]
+    rj += [{"prog": [M.C(5, 1, 0), M.C(5, 1, 3)] + c["prog"], "input": M.cps("a")} for c in rj[:20 if quick else 500]]
+    cpath2 = os.path.join(work, "cases_rj.json")
+    M.write_cases(cpath2, rj)
+    obs = M.run_obs(ck, cpath2, "c03_RJ", levels="", clevels="0,2", bound=400, timeout_ms=400)
+    M.validate_traces(ck, obs, 14, classify_c03, "T-retjump")
+    progs += len(rj)
     ck.cov["programs"] = progs * 3
     ck.cov["disagreements_checked"] = progs * 3
     ck.cov["vacuity"]["T_programs"] = len(tc)
